@@ -14,12 +14,36 @@
 (* every operation in every initial state (ImplAgrees): a difference is a   *)
 (* candidate defect, to be reproduced on the real code.                     *)
 (*                                                                          *)
-(* Binding A. Exhaustive configs: every initial store (<= MaxInitKeys keys) *)
-(* x every operation = one state of depth 1 whose `step` carries the        *)
+(* v2 - two more dimensions.                                                *)
+(* OBJECTS. A prefix storage is an object that lives on between calls. The  *)
+(* map model of the statement has no memory: the reply and the effect of a  *)
+(* call are a function of (prefix, open/closed, store) only. Every          *)
+(* operation therefore names the object it goes through: the long-lived     *)
+(* one of its prefix ("kept": made once, used for the whole behaviour) or a *)
+(* "fresh" one made for this call. `obj[p]` is what the kept object of p    *)
+(* has been through (calls made, the largest removal it did); in Mode       *)
+(* "hist" the whole sequence `path` of calls is part of the state, so that  *)
+(* TLC enumerates every HISTORY of MaxSteps operations on one object,       *)
+(* not every store.                                                         *)
+(* SIZES. The removers work in rounds of at most L keys (BatchRemove; the   *)
+(* callers in isaac/database pass L = 333). Fill(p, c) writes SizeOf(c)     *)
+(* filler keys  p ++ <<FB, hi, lo>>  through the object in one batch; the   *)
+(* size classes stand below / at / above / at a multiple of / several       *)
+(* rounds above L. FB is a byte outside Alphabet: every other key of the    *)
+(* model is over Alphabet, hence all fillers of one prefix lie on the same  *)
+(* side of every bound and under the same prefixes (FillersUniform) and the *)
+(* model keeps them as ONE key Fat(p) = p ++ <<FB>> with the multiplicity   *)
+(* bulk[p]; replies and stores name them as a run <<key, value, from, to>>. *)
+(*                                                                          *)
+(* Binding A. Mode "cases": every initial store (<= MaxInitKeys keys) x     *)
+(* every operation = one state of depth 1 whose `step` carries the          *)
 (* pre-store, the operation, the expected reply and the expected store.     *)
-(* -simulate (Walk): seeded walks of MaxSteps operations on one store.      *)
-(* Replayed on leveldbstorage.Storage over goleveldb memory storage; after  *)
-(* every step the raw store is dumped and compared with kv.                 *)
+(* Mode "hist": every sequence of MaxSteps operations of HistKinds through  *)
+(* the kept object of one prefix (and a fresh one, for Remove), from a      *)
+(* store with keys under and around the prefix. Mode "walk" (-simulate):    *)
+(* seeded walks of MaxSteps operations on one store. Replayed on            *)
+(* leveldbstorage.Storage over goleveldb memory storage; after every step   *)
+(* the raw store is dumped and compared with kv.                            *)
 EXTENDS Integers, Sequences, FiniteSets, TLC, Json
 
 CONSTANTS Alphabet,     \* bytes keys are made of, e.g. {0, 1, 255}
@@ -30,15 +54,27 @@ CONSTANTS Alphabet,     \* bytes keys are made of, e.g. {0, 1, 255}
           BoundLen,     \* range bounds have length 1..BoundLen (or are nil)
           Limits,       \* batch limits of BatchRemove
           Stops,        \* Iter: stop after this many callbacks (0 = never)
-          Walk,         \* TRUE: -simulate walks from the empty store
-          MaxSteps
+          Mode,         \* "cases" | "walk" | "hist"
+          MaxSteps,
+          L,            \* the batch limit of the repository's removers (333); sizes are relative to it
+          Sizes,        \* size classes Fill may use (names, see SizeOf)
+          HistStores,   \* hist: prefixes whose kept object is put through every history
+          HistKinds     \* hist: the calls a history is made of (names, see HistOp; a size class = Fill)
 
 Nil == <<-1>>            \* a nil []byte (no bound)
+FB  == 2                 \* the byte after the prefix in a filler key
+ASSUME FB \notin Alphabet
 
 \* values for Stores (a cfg file cannot write tuples): nested, sibling and all-0xff prefixes
 StoresSmall == {<<1>>, <<1, 0>>, <<1, 255>>, <<255>>, <<255, 255>>}
 StoresLarge == StoresSmall \cup {<<0>>, <<0, 1>>}
+HistStoresQuick == {<<1>>, <<255, 255>>}
 Values == {1, 2}
+
+SizeOf(c) == CASE c = "3" -> 3 [] c = "L-1" -> L - 1 [] c = "L" -> L [] c = "L+1" -> L + 1
+               [] c = "2L" -> 2 * L [] c = "2L+1" -> 2 * L + 1 [] c = "3L+2" -> 3 * L + 2
+AllSizes == {"3", "L-1", "L", "L+1", "2L", "2L+1", "3L+2"}
+ASSUME Sizes \subseteq AllSizes
 
 Seqs(n) == UNION {[1..i -> Alphabet] : i \in 1..n}
 UKeys  == Seqs(UKLen)
@@ -46,10 +82,13 @@ Bounds == Seqs(BoundLen) \cup {Nil}
 RPrefixes == Seqs(2) \cup {<<>>}      \* arguments of the package-level RemoveByPrefix
 
 VARIABLES kv,       \* the shared store: a function from a finite set of byte sequences to Values
-          closed,   \* prefix storages on which Close() was called
+          bulk,     \* bulk[p] = number of filler keys under Fat(p) (0: none; > 0 iff Fat(p) \in DOMAIN kv)
+          closed,   \* prefixes on whose kept object Close() was called
+          obj,      \* obj[p] = what the kept object of p has been through: calls, largest removal (-1: none)
+          path,     \* hist: <<prefix under test>> \o the names of the calls made
           n,        \* operations done
           step      \* output only
-vars == <<kv, closed, n, step>>
+vars == <<kv, bulk, closed, obj, path, n, step>>
 
 ---------------------------------------------------------------------------
 (* byte strings *)
@@ -69,6 +108,7 @@ Sorted(S) == IF S = {} THEN <<>>
 
 Reverse(s) == [i \in 1..Len(s) |-> s[Len(s) + 1 - i]]
 Take(s, k) == IF k = 0 \/ k >= Len(s) THEN s ELSE SubSeq(s, 1, k)
+Max(a, b) == IF a >= b THEN a ELSE b
 
 StartsWith(k, p) == Len(k) >= Len(p) /\ SubSeq(k, 1, Len(p)) = p
 Rest(k, p) == SubSeq(k, Len(p) + 1, Len(k))
@@ -80,18 +120,57 @@ Without(m, D) == [k \in DOMAIN m \ D |-> m[k]]
 With(m, key, v) == [k \in DOMAIN m \cup {key} |-> IF k = key THEN v ELSE m[k]]
 
 ---------------------------------------------------------------------------
-(* The statement: a map model. Every operation yields <<reply, store'>>.    *)
+(* filler runs *)
+
+Fat(p)   == p \o <<FB>>
+IsFat(k) == k # <<>> /\ k[Len(k)] = FB
+Owner(k) == SubSeq(k, 1, Len(k) - 1)                 \* the prefix a fat key belongs to
+Mult(bk, k) == IF IsFat(k) THEN bk[Owner(k)] ELSE 1  \* how many real keys the model key k stands for
+NoBulk == [p \in Stores |-> 0]
+Norm(m, bk) == [p \in Stores |-> IF Fat(p) \in DOMAIN m THEN bk[p] ELSE 0]
+
+RECURSIVE SumMult(_, _)
+SumMult(bk, D) == IF D = {} THEN 0
+                  ELSE LET k == CHOOSE x \in D : TRUE IN Mult(bk, k) + SumMult(bk, D \ {k})
+
+(* every filler p ++ <<FB, hi, lo>> compares with every bound the model can form (full keys over
+   Alphabet of length <= 4: prefix ++ user bound) as Fat(p) does, and lies under the same prefixes *)
+FillersUniform ==
+  \A p \in Stores, hi \in {0, 1, 255}, lo \in {0, 77, 255} :
+    LET f == p \o <<FB, hi, lo>>
+    IN /\ \A b \in Seqs(4) : (Less(b, f) <=> Less(b, Fat(p))) /\ (Less(f, b) <=> Less(Fat(p), b))
+       /\ \A q \in Stores \cup RPrefixes : StartsWith(f, q) <=> StartsWith(Fat(p), q)
+ASSUME FillersUniform
+
+---------------------------------------------------------------------------
+(* The statement: a map model. Every operation yields <<reply, store', bulk'>>.    *)
 
 Under(m, p) == {k \in DOMAIN m : StartsWith(k, p)}
 
 AbsGet(m, p, u)    == IF p \o u \in DOMAIN m THEN <<1, m[p \o u]>> ELSE <<0, 0>>
 AbsExists(m, p, u) == IF p \o u \in DOMAIN m THEN 1 ELSE 0
 
+\* the first `left` (> 0) callbacks of a sequence of <<key, keys behind it>>
+RECURSIVE Cut(_, _)
+Cut(es, left) == IF es = <<>> \/ left = 0 THEN <<>>
+                 ELSE IF Head(es)[2] >= left THEN << <<Head(es)[1], left>> >>
+                 ELSE <<Head(es)>> \o Cut(Tail(es), left - Head(es)[2])
+
+\* what the callback of an iteration over the model keys `ord` (in this order) is handed, cut after
+\* `stop` callbacks: <<user key, value>>, a run of fillers as <<user key of Fat, value, from, to>>
+Visits(m, bk, p, ord, asc, stop) ==
+  LET es == [i \in 1..Len(ord) |-> <<ord[i], Mult(bk, ord[i])>>]
+      ct == IF stop = 0 THEN es ELSE Cut(es, stop)
+  IN [i \in 1..Len(ct) |->
+        LET k == ct[i][1] c == ct[i][2]
+        IN IF IsFat(k)
+           THEN IF asc THEN <<Rest(k, p), m[k], 0, c - 1>> ELSE <<Rest(k, p), m[k], bk[Owner(k)] - 1, bk[Owner(k)] - c>>
+           ELSE <<Rest(k, p), m[k]>>]
+
 \* the entries of P in the range of *user* keys, in order, cut after `stop` callbacks
-AbsIter(m, p, s, l, asc, stop) ==
-  LET ks  == Sorted({k \in Under(m, p) : InRange(Rest(k, p), s, l)})
-      ord == Take(IF asc THEN ks ELSE Reverse(ks), stop)
-  IN [i \in 1..Len(ord) |-> <<Rest(ord[i], p), m[ord[i]]>>]
+AbsIter(m, bk, p, s, l, asc, stop) ==
+  LET ks == Sorted({k \in Under(m, p) : InRange(Rest(k, p), s, l)})
+  IN Visits(m, bk, p, IF asc THEN ks ELSE Reverse(ks), asc, stop)
 
 RECURSIVE ApplyBatch(_, _, _)
 ApplyBatch(m, p, b) ==
@@ -103,8 +182,8 @@ ApplyBatch(m, p, b) ==
 AbsRemove(m, p) == Without(m, Under(m, p))
 
 \* "batch range removal deletes exactly the keys in the range" (and reports how many)
-AbsBatchRemove(m, s, l) ==
-  LET D == {k \in DOMAIN m : InRange(k, s, l)} IN <<Cardinality(D), Without(m, D)>>
+AbsBatchRemove(m, bk, s, l) ==
+  LET D == {k \in DOMAIN m : InRange(k, s, l)} IN <<SumMult(bk, D), Without(m, D)>>
 
 ---------------------------------------------------------------------------
 (* The code *)
@@ -116,148 +195,224 @@ PrefixLimit(p) == IF p = <<>> THEN Nil
                   ELSE PrefixLimit(SubSeq(p, 1, Len(p) - 1))
 BytesPrefix(p) == <<p, PrefixLimit(p)>>
 
-\* Storage.Iter over the raw store
-RawIter(m, s, l, asc, stop) ==
+\* Storage.Iter over the raw store (model keys; a run is one of them)
+RawIter(m, s, l, asc) ==
   LET ks == Sorted({k \in DOMAIN m : InRange(k, s, l)})
-  IN Take(IF asc THEN ks ELSE Reverse(ks), stop)
+  IN IF asc THEN ks ELSE Reverse(ks)
 
 \* PrefixStorage.Iter: range rewrite + origkey
-ImplIter(m, p, s, l, asc, stop) ==
+ImplIter(m, bk, p, s, l, asc, stop) ==
   LET nr  == BytesPrefix(p)
       st  == IF s # Nil THEN p \o s ELSE nr[1]
       lm  == IF l # Nil THEN p \o l ELSE nr[2]
-      ord == RawIter(m, st, lm, asc, stop)
-  IN [i \in 1..Len(ord) |-> <<Rest(ord[i], p), m[ord[i]]>>]
+  IN Visits(m, bk, p, RawIter(m, st, lm, asc), asc, stop)
 
 \* RemoveByPrefix: one batch of deletes of everything Iter(BytesPrefix(prefix)) visits
 ImplRemoveByPrefix(m, p) ==
   LET nr == BytesPrefix(p) IN Without(m, {k \in DOMAIN m : InRange(k, nr[1], nr[2])})
 
 \* BatchRemove: rounds of at most `lim` deletes; a round that fills the batch remembers the key it
-\* stopped at and the next round starts there; ends with the first round that deletes nothing
-RECURSIVE ImplBatchRemove(_, _, _, _, _)
-ImplBatchRemove(m, s, l, lim, removed) ==
-  LET inr   == RawIter(m, s, l, TRUE, 0)
-      taken == IF Len(inr) > lim THEN SubSeq(inr, 1, lim) ELSE inr
-      next  == IF Len(inr) > lim THEN inr[lim + 1] ELSE s
-  IN IF taken = <<>> THEN <<removed, m>>
-     ELSE ImplBatchRemove(Without(m, {taken[i] : i \in 1..Len(taken)}), next, l, lim, removed + Len(taken))
+\* stopped at (not deleted) and the next round starts there; ends with the first round that deletes
+\* nothing. The fillers of a run are deleted one by one: `skip` = how many of the first visited
+\* run are gone already (the restart key lies inside that run).
+RECURSIVE Eat(_, _, _)
+Eat(ws, i, left) == IF i > Len(ws) THEN <<i, 0>>                       \* everything visited went into the batch
+                    ELSE IF ws[i] <= left THEN Eat(ws, i + 1, left - ws[i])
+                    ELSE <<i, left>>                                     \* batch full at key number left+1 of entry i
+
+RECURSIVE ImplBatchRemove(_, _, _, _, _, _, _)
+ImplBatchRemove(m, bk, s, l, lim, removed, skip) ==
+  LET inr  == RawIter(m, s, l, TRUE)
+      ws   == [i \in 1..Len(inr) |-> Mult(bk, inr[i]) - (IF i = 1 THEN skip ELSE 0)]
+      e    == Eat(ws, 1, lim)
+      gone == {inr[i] : i \in 1..(e[1] - 1)}                              \* deleted to the last key
+      all  == IF inr = <<>> THEN 0 ELSE SumMult(bk, {inr[i] : i \in 1..Len(inr)}) - skip
+      took == IF e[1] > Len(inr) THEN all ELSE lim                        \* a batch that stopped is full
+  IN IF took = 0 THEN <<removed, m>>
+     ELSE IF e[1] > Len(inr)
+          THEN ImplBatchRemove(Without(m, gone), bk, s, l, lim, removed + took, 0)
+          ELSE ImplBatchRemove(Without(m, gone), bk, inr[e[1]], l, lim, removed + took,
+                               (IF e[1] = 1 THEN skip ELSE 0) + e[2])
 
 ---------------------------------------------------------------------------
-(* Operations. An operation is a record; Abs(m, c, op) / Impl(m, c, op) = <<reply, store'>>. *)
+(* Operations. An operation is a record; Abs(m, bk, c, op) / Impl(m, bk, c, op) = <<reply, store', bulk'>>. *)
 
 BatchOps == {<<"put", u, 2>> : u \in UKeys} \cup {<<"del", u, 0>> : u \in UKeys}
 
-Point(kind) == {[a |-> kind, p |-> p, k |-> u] : p \in Stores, u \in UKeys}
+Point(kind) == {[a |-> kind, p |-> p, o |-> "kept", k |-> u] : p \in Stores, u \in UKeys}
 
 OpsOfKind == [
-  Put      |-> {[a |-> "Put", p |-> p, k |-> u, v |-> v] : p \in Stores, u \in UKeys, v \in Values},
+  Put      |-> {[a |-> "Put", p |-> p, o |-> "kept", k |-> u, v |-> v] : p \in Stores, u \in UKeys, v \in Values},
   Get      |-> Point("Get"),
   Exists   |-> Point("Exists"),
   Delete   |-> Point("Delete"),
-  Iter     |-> {[a |-> "Iter", p |-> p, s |-> s, l |-> l, asc |-> asc, stop |-> stop] :
+  Iter     |-> {[a |-> "Iter", p |-> p, o |-> "kept", s |-> s, l |-> l, asc |-> asc, stop |-> stop] :
                    p \in Stores, s \in Bounds, l \in Bounds, asc \in BOOLEAN, stop \in Stops},
-  Batch    |-> {[a |-> "Batch", p |-> p, b |-> b] : p \in Stores, b \in (BatchOps \X BatchOps) \cup {<<o>> : o \in BatchOps}},
-  Remove   |-> {[a |-> "Remove", p |-> p] : p \in Stores},
-  Close    |-> {[a |-> "Close", p |-> p] : p \in Stores},
+  Batch    |-> {[a |-> "Batch", p |-> p, o |-> "kept", b |-> b] : p \in Stores, b \in (BatchOps \X BatchOps) \cup {<<o>> : o \in BatchOps}},
+  Fill     |-> {[a |-> "Fill", p |-> p, o |-> "kept", c |-> c, n |-> SizeOf(c)] : p \in Stores, c \in Sizes},
+  Remove   |-> {[a |-> "Remove", p |-> p, o |-> "kept"] : p \in Stores},
+  Close    |-> {[a |-> "Close", p |-> p, o |-> "kept"] : p \in Stores},
   RawPut   |-> {[a |-> "RawPut", k |-> k, v |-> v] : k \in Seqs(InitKeyLen), v \in Values},
   RemoveByPrefix |-> {[a |-> "RemoveByPrefix", p |-> p] : p \in RPrefixes},
   BatchRemove    |-> {[a |-> "BatchRemove", s |-> s, l |-> l, lim |-> lim] : s \in Bounds, l \in Bounds, lim \in Limits}
 ]
 Kinds == DOMAIN OpsOfKind
 Ops == UNION {OpsOfKind[kd] : kd \in Kinds}
-OnStore(op) == op.a \in {"Put", "Get", "Exists", "Delete", "Iter", "Batch", "Remove", "Close"}
+OnStore(op) == op.a \in {"Put", "Get", "Exists", "Delete", "Iter", "Batch", "Fill", "Remove", "Close"}
+\* the call goes through an object on which Close() was called (a fresh object is open)
+OnClosed(c, op) == OnStore(op) /\ op.o = "kept" /\ op.p \in c
 
 \* a closed prefix storage answers "closed", observes nothing and changes nothing
-Abs(m, c, op) ==
-  IF OnStore(op) /\ op.p \in c THEN <<IF op.a = "Close" THEN "ok" ELSE "closed", m>>
-  ELSE CASE op.a = "Put"    -> <<"ok", With(m, op.p \o op.k, op.v)>>
-         [] op.a = "Get"    -> <<AbsGet(m, op.p, op.k), m>>
-         [] op.a = "Exists" -> <<AbsExists(m, op.p, op.k), m>>
-         [] op.a = "Delete" -> <<"ok", Without(m, {op.p \o op.k})>>
-         [] op.a = "Iter"   -> <<AbsIter(m, op.p, op.s, op.l, op.asc, op.stop), m>>
-         [] op.a = "Batch"  -> <<"ok", ApplyBatch(m, op.p, op.b)>>
-         [] op.a = "Remove" -> <<"ok", AbsRemove(m, op.p)>>
-         [] op.a = "Close"  -> <<"ok", m>>
-         [] op.a = "RawPut" -> <<"ok", With(m, op.k, op.v)>>
-         [] op.a = "RemoveByPrefix" -> <<"ok", AbsRemove(m, op.p)>>
-         [] op.a = "BatchRemove"    -> AbsBatchRemove(m, op.s, op.l)
+Abs(m, bk, c, op) ==
+  LET r == IF OnClosed(c, op) THEN <<IF op.a = "Close" THEN "ok" ELSE "closed", m>>
+           ELSE CASE op.a = "Put"    -> <<"ok", With(m, op.p \o op.k, op.v)>>
+                  [] op.a = "Get"    -> <<AbsGet(m, op.p, op.k), m>>
+                  [] op.a = "Exists" -> <<AbsExists(m, op.p, op.k), m>>
+                  [] op.a = "Delete" -> <<"ok", Without(m, {op.p \o op.k})>>
+                  [] op.a = "Iter"   -> <<AbsIter(m, bk, op.p, op.s, op.l, op.asc, op.stop), m>>
+                  [] op.a = "Batch"  -> <<"ok", ApplyBatch(m, op.p, op.b)>>
+                  [] op.a = "Fill"   -> <<"ok", With(m, Fat(op.p), 1)>>
+                  [] op.a = "Remove" -> <<"ok", AbsRemove(m, op.p)>>
+                  [] op.a = "Close"  -> <<"ok", m>>
+                  [] op.a = "RawPut" -> <<"ok", With(m, op.k, op.v)>>
+                  [] op.a = "RemoveByPrefix" -> <<"ok", AbsRemove(m, op.p)>>
+                  [] op.a = "BatchRemove"    -> AbsBatchRemove(m, bk, op.s, op.l)
+      b == IF op.a = "Fill" /\ ~OnClosed(c, op) THEN [bk EXCEPT ![op.p] = Max(@, op.n)] ELSE bk
+  IN <<r[1], r[2], Norm(r[2], b)>>
 
 \* the code on a closed storage: Close() sets prefix = nil; key() then returns nil => ErrClosed for the
 \* point operations, for Batch and for Iter with a bound; Iter without bounds and Remove use the nil
 \* prefix as it is: BytesPrefix(nil) is the whole store
-Impl(m, c, op) ==
-  IF OnStore(op) /\ op.p \in c
-  THEN CASE op.a = "Close"  -> <<"ok", m>>
-         [] op.a = "Iter" /\ op.s = Nil /\ op.l = Nil -> <<ImplIter(m, <<>>, Nil, Nil, op.asc, op.stop), m>>
-         [] op.a = "Remove" -> <<"ok", ImplRemoveByPrefix(m, <<>>)>>
-         [] OTHER -> <<"closed", m>>
-  ELSE CASE op.a = "Iter"   -> <<ImplIter(m, op.p, op.s, op.l, op.asc, op.stop), m>>
-         [] op.a = "Remove" -> <<"ok", ImplRemoveByPrefix(m, op.p)>>
-         [] op.a = "RemoveByPrefix" -> <<"ok", ImplRemoveByPrefix(m, op.p)>>
-         [] op.a = "BatchRemove"    -> ImplBatchRemove(m, op.s, op.l, op.lim, 0)
-         [] OTHER -> Abs(m, c, op)      \* point operations: key() = prefix ++ key, nothing more to transcribe
+Impl(m, bk, c, op) ==
+  LET r == IF OnClosed(c, op)
+           THEN CASE op.a = "Close"  -> <<"ok", m>>
+                  [] op.a = "Iter" /\ op.s = Nil /\ op.l = Nil -> <<ImplIter(m, bk, <<>>, Nil, Nil, op.asc, op.stop), m>>
+                  [] op.a = "Remove" -> <<"ok", ImplRemoveByPrefix(m, <<>>)>>
+                  [] OTHER -> <<"closed", m>>
+           ELSE CASE op.a = "Iter"   -> <<ImplIter(m, bk, op.p, op.s, op.l, op.asc, op.stop), m>>
+                  [] op.a = "Remove" -> <<"ok", ImplRemoveByPrefix(m, op.p)>>
+                  [] op.a = "RemoveByPrefix" -> <<"ok", ImplRemoveByPrefix(m, op.p)>>
+                  [] op.a = "BatchRemove"    -> ImplBatchRemove(m, bk, op.s, op.l, op.lim, 0, 0)
+                  [] OTHER -> LET a == Abs(m, bk, c, op) IN <<a[1], a[2]>>   \* point operations and Fill: key() = prefix ++ key
+      b == IF op.a = "Fill" /\ ~OnClosed(c, op) THEN [bk EXCEPT ![op.p] = Max(@, op.n)] ELSE bk
+  IN <<r[1], r[2], Norm(r[2], b)>>
 
 ---------------------------------------------------------------------------
-Pairs(m) == {<<k, m[k]>> : k \in DOMAIN m}
+(* histories on one object *)
 
-Out(m, c, op, r) == ToJson([op |-> op, pre |-> Pairs(m), closed |-> c, res |-> r[1], kv |-> Pairs(r[2])])
+HistOp(P, t) ==
+  CASE t \in AllSizes  -> [a |-> "Fill", p |-> P, o |-> "kept", c |-> t, n |-> SizeOf(t)]
+    [] t = "Rm"        -> [a |-> "Remove", p |-> P, o |-> "kept"]
+    [] t = "RmFresh"   -> [a |-> "Remove", p |-> P, o |-> "fresh"]
+    [] t = "Put0"      -> [a |-> "Put", p |-> P, o |-> "kept", k |-> <<0>>, v |-> 2]       \* sorts before the fillers
+    [] t = "Put255"    -> [a |-> "Put", p |-> P, o |-> "kept", k |-> <<255>>, v |-> 2]     \* sorts after the fillers
+    [] t = "Del0"      -> [a |-> "Delete", p |-> P, o |-> "kept", k |-> <<0>>]
+    [] t = "Iter"      -> [a |-> "Iter", p |-> P, o |-> "kept", s |-> Nil, l |-> Nil, asc |-> TRUE, stop |-> 0]
+    [] t = "IterDesc"  -> [a |-> "Iter", p |-> P, o |-> "kept", s |-> Nil, l |-> Nil, asc |-> FALSE, stop |-> 0]
+    [] t = "IterFrom1" -> [a |-> "Iter", p |-> P, o |-> "kept", s |-> <<1>>, l |-> Nil, asc |-> TRUE, stop |-> 0]
+    [] t = "IterFresh" -> [a |-> "Iter", p |-> P, o |-> "fresh", s |-> Nil, l |-> Nil, asc |-> TRUE, stop |-> 0]
+    [] t = "BRAll"     -> [a |-> "BatchRemove", s |-> Nil, l |-> Nil, lim |-> L]            \* package level, the removers' limit
+AllHistKinds == AllSizes \cup {"Rm", "RmFresh", "Put0", "Put255", "Del0", "Iter", "IterDesc", "IterFrom1", "IterFresh", "BRAll"}
+ASSUME HistKinds \subseteq AllHistKinds
+
+\* the store a history starts from: keys under every prefix of StoresSmall, before, between and after them
+HistKV == [k \in {<<0, 255>>, <<1>>, <<1, 0, 1>>, <<1, 1>>, <<1, 255>>, <<255>>, <<255, 0>>, <<255, 255>>, <<255, 255, 255>>} |-> 1]
+
+Fills(pt) == Cardinality({i \in 2..Len(pt) : pt[i] \in AllSizes})
+
+---------------------------------------------------------------------------
+Pairs(m, bk) == {IF IsFat(k) THEN <<k, m[k], 0, bk[Owner(k)] - 1>> ELSE <<k, m[k]>> : k \in DOMAIN m}
+
+\* what the replay needs: the operation, the store before and after, the reply, and what the object the
+\* call goes through has been through before (rm = -1: no Remove yet, or a fresh object)
+Rec(m, bk, c, ob, op, r, pt) ==
+  [op |-> op, pre |-> Pairs(m, bk), closed |-> c, res |-> r[1], kv |-> Pairs(r[2], r[3]), L |-> L,
+   rm |-> IF OnStore(op) /\ op.o = "kept" THEN ob[op.p].rm ELSE -1,
+   calls |-> IF OnStore(op) /\ op.o = "kept" THEN ob[op.p].calls ELSE 0,
+   path |-> pt]
 
 EmptyKV == [k \in {} |-> 0]
 
 KeySets(K, sz) == {{}} \cup (IF sz = 0 THEN {} ELSE {{t[i] : i \in 1..sz} : t \in [1..sz -> K]})
 
-Init == /\ IF Walk
-           THEN kv = EmptyKV /\ closed = {}
-           ELSE /\ kv \in {[k \in S |-> 1] : S \in KeySets(Seqs(InitKeyLen), MaxInitKeys)}
-                /\ closed \in {{}} \cup {{p} : p \in Stores}
+NewObj == [p \in Stores |-> [calls |-> 0, rm |-> -1]]
+
+Init == /\ CASE Mode = "walk"  -> kv = EmptyKV /\ closed = {} /\ path = <<>>
+             [] Mode = "hist"  -> kv = HistKV /\ closed = {} /\ path \in {<<p>> : p \in HistStores}
+             [] Mode = "cases" -> /\ kv \in {[k \in S |-> 1] : S \in KeySets(Seqs(InitKeyLen), MaxInitKeys)}
+                                  /\ closed \in {{}} \cup {{p} : p \in Stores}
+                                  /\ path = <<>>
+        /\ bulk = NoBulk
+        /\ obj = NewObj
         /\ n = 0
         /\ step = ""
 
 Do(op) == /\ n < MaxSteps
-          /\ (~Walk /\ closed # {}) => (OnStore(op) /\ op.p \in closed)   \* exhaustive: a closed store is only asked itself
-          /\ LET r == Abs(kv, closed, op)
+          /\ (Mode = "cases" /\ closed # {}) => (OnStore(op) /\ op.p \in closed)   \* exhaustive: a closed store is only asked itself
+          /\ LET r == Abs(kv, bulk, closed, op)
+                 removed == SumMult(bulk, DOMAIN kv) - SumMult(r[3], DOMAIN r[2])
              IN /\ kv' = r[2]
-                /\ step' = Out(kv, closed, op, r)
-          /\ closed' = IF op.a = "Close" THEN closed \cup {op.p} ELSE closed
+                /\ bulk' = r[3]
+                /\ step' = IF Mode = "hist" THEN ToString(Rec(kv, bulk, closed, obj, op, r, path))
+                                            ELSE ToJson(Rec(kv, bulk, closed, obj, op, r, path))
+                /\ obj' = IF OnStore(op) /\ op.o = "kept"
+                          THEN [obj EXCEPT ![op.p] = [calls |-> @.calls + 1,
+                                                      rm |-> IF op.a = "Remove" /\ ~OnClosed(closed, op) THEN Max(@.rm, removed) ELSE @.rm]]
+                          ELSE obj
+          /\ closed' = IF op.a = "Close" /\ op.o = "kept" THEN closed \cup {op.p} ELSE closed
           /\ n' = n + 1
 
 \* -simulate builds every successor before it picks one: a walk draws its operation itself
 \* (RandomElement follows -seed), the kind first so that the many Iter variants do not crowd out the
-\* writes, then every parameter from its own small set (an element of OpsOfKind[kind])
+\* writes, then every parameter from its own small set (an element of OpsOfKind[kind], through the
+\* kept object of the prefix three times out of four)
 R(S) == RandomElement(S)
+Which == <<"kept", "kept", "kept", "fresh">>
+RO(d) == Which[R(1..4)]
 RandomOp(kd) ==
-  CASE kd = "Put"    -> [a |-> "Put", p |-> R(Stores), k |-> R(UKeys), v |-> R(Values)]
-    [] kd \in {"Get", "Exists", "Delete"} -> [a |-> kd, p |-> R(Stores), k |-> R(UKeys)]
-    [] kd = "Iter"   -> [a |-> "Iter", p |-> R(Stores), s |-> R(Bounds), l |-> R(Bounds), asc |-> R(BOOLEAN), stop |-> R(Stops)]
-    [] kd = "Batch"  -> [a |-> "Batch", p |-> R(Stores), b |-> IF R(BOOLEAN) THEN <<R(BatchOps)>> ELSE <<R(BatchOps), R(BatchOps)>>]
-    [] kd \in {"Remove", "Close"} -> [a |-> kd, p |-> R(Stores)]
+  CASE kd = "Put"    -> [a |-> "Put", p |-> R(Stores), o |-> RO(0), k |-> R(UKeys), v |-> R(Values)]
+    [] kd \in {"Get", "Exists", "Delete"} -> [a |-> kd, p |-> R(Stores), o |-> RO(0), k |-> R(UKeys)]
+    [] kd = "Iter"   -> [a |-> "Iter", p |-> R(Stores), o |-> RO(0), s |-> R(Bounds), l |-> R(Bounds), asc |-> R(BOOLEAN), stop |-> R(Stops)]
+    [] kd = "Batch"  -> [a |-> "Batch", p |-> R(Stores), o |-> RO(0), b |-> IF R(BOOLEAN) THEN <<R(BatchOps)>> ELSE <<R(BatchOps), R(BatchOps)>>]
+    [] kd = "Fill"   -> LET c == R(Sizes) IN [a |-> "Fill", p |-> R(Stores), o |-> RO(0), c |-> c, n |-> SizeOf(c)]
+    [] kd \in {"Remove", "Close"} -> [a |-> kd, p |-> R(Stores), o |-> RO(0)]
     [] kd = "RawPut" -> [a |-> "RawPut", k |-> R(Seqs(InitKeyLen)), v |-> R(Values)]
     [] kd = "RemoveByPrefix" -> [a |-> "RemoveByPrefix", p |-> R(RPrefixes)]
     [] kd = "BatchRemove"    -> [a |-> "BatchRemove", s |-> R(Bounds), l |-> R(Bounds), lim |-> R(Limits)]
 
 \* writes are drawn more often than the rest, Close rarely
 WalkKinds == <<"Put", "Put", "Put", "RawPut", "RawPut", "Batch", "Get", "Exists", "Delete", "Iter", "Iter", "Iter",
-               "Remove", "RemoveByPrefix", "BatchRemove", "BatchRemove", "Put", "RawPut", "Iter", "Close">>
+               "Remove", "RemoveByPrefix", "BatchRemove", "BatchRemove", "Put", "RawPut", "Iter", "Close",
+               "Fill", "Fill", "Remove">>
+
+\* a history: any call of HistKinds after any other, but not the same call twice in a row (except a
+\* second Remove) and at most two Fills
+HistNext == \E t \in HistKinds :
+              /\ (Len(path) > 1 /\ t = path[Len(path)]) => t = "Rm"
+              /\ (t \in AllSizes) => Fills(path) < 2
+              /\ Do(HistOp(path[1], t))
+              /\ path' = Append(path, t)
 
 Next == /\ n < MaxSteps
-        /\ IF Walk
-           THEN LET op == RandomOp(WalkKinds[R(1..Len(WalkKinds))]) IN Do(op)
-           ELSE \E op \in Ops : Do(op)
+        /\ CASE Mode = "walk"  -> (\E op \in {RandomOp(WalkKinds[R(1..Len(WalkKinds))])} : Do(op)) /\ UNCHANGED path
+             [] Mode = "hist"  -> HistNext
+             [] Mode = "cases" -> (\E op \in Ops : Do(op)) /\ UNCHANGED path
 
 Spec == Init /\ [][Next]_vars
 
 ---------------------------------------------------------------------------
-TypeOK == /\ DOMAIN kv \subseteq Seqs(InitKeyLen + 2 + UKLen)
+TypeOK == /\ \A k \in DOMAIN kv : IF IsFat(k) THEN Owner(k) \in Stores ELSE k \in Seqs(InitKeyLen + 2 + UKLen)
+          /\ \A p \in Stores : bulk[p] \in 0..(3 * L + 2) /\ (bulk[p] > 0 <=> Fat(p) \in DOMAIN kv)
           /\ closed \subseteq Stores
           /\ n \in 0..MaxSteps
+          /\ \A p \in Stores : obj[p].calls \in 0..MaxSteps /\ obj[p].rm \in -1..(10 * (3 * L + 2))
 
 (* the code agrees with the map model, for every operation, in every initial store *)
-ImplAgrees == n = 0 => \A op \in Ops : Impl(kv, closed, op) = Abs(kv, closed, op)
+ImplAgrees == n = 0 => \A op \in Ops : Impl(kv, bulk, closed, op) = Abs(kv, bulk, closed, op)
 
 (* the same restricted to open storages and batch limits >= 1 (the statement is read for these) *)
 Lim0(op) == op.a = "BatchRemove" /\ op.lim = 0
-ImplAgreesOpen == (n = 0 /\ closed = {}) => \A op \in Ops : ~Lim0(op) => Impl(kv, closed, op) = Abs(kv, closed, op)
+ImplAgreesOpen == (n = 0 /\ closed = {}) => \A op \in Ops : ~Lim0(op) => Impl(kv, bulk, closed, op) = Abs(kv, bulk, closed, op)
 
 (* BytesPrefix(p) is exactly "starts with p" *)
 ASSUME \A p \in Stores \cup RPrefixes, k \in Seqs(4) :
@@ -266,8 +421,25 @@ ASSUME \A p \in Stores \cup RPrefixes, k \in Seqs(4) :
 (* isolation, from the statement, on the map model itself: an operation through P leaves every key
    that does not start with P as it was, and replies with keys of P only *)
 Foreign(m, p) == [k \in DOMAIN m \ Under(m, p) |-> m[k]]
-Isolated == n = 0 => \A op \in Ops : OnStore(op) =>
-              LET r == Abs(kv, closed, op)
-              IN /\ Foreign(r[2], op.p) = Foreign(kv, op.p)
-                 /\ (op.a = "Iter" /\ op.p \notin closed) => \A i \in 1..Len(r[1]) : op.p \o r[1][i][1] \in Under(kv, op.p)
+IsolatedOp(op) ==
+  LET r == Abs(kv, bulk, closed, op)
+  IN /\ Foreign(r[2], op.p) = Foreign(kv, op.p)
+     /\ \A q \in Stores : ~StartsWith(Fat(q), op.p) => r[3][q] = bulk[q]
+     /\ (op.a = "Iter" /\ ~OnClosed(closed, op)) => \A i \in 1..Len(r[1]) : op.p \o r[1][i][1] \in Under(kv, op.p)
+Isolated == n = 0 => \A op \in Ops : OnStore(op) => IsolatedOp(op)
+
+(* hist: in every state a history reaches (stores with runs below, at and above L keys), for every call
+   a history may go on with: the code's arithmetic (range rewrite, rounds of L with restart key) agrees
+   with the map model, and the call is isolated *)
+HistAgrees == Mode = "hist" =>
+  \A t \in HistKinds \cup {"BRAll"} :
+    LET op == HistOp(path[1], t)
+    IN /\ Impl(kv, bulk, closed, op) = Abs(kv, bulk, closed, op)
+       /\ OnStore(op) => IsolatedOp(op)
+(* ... and so does a removal of the prefix's range in rounds of L, of 1 and of L - 1 keys *)
+HistRounds == Mode = "hist" =>
+  \A lim \in {1, L - 1, L} :
+    LET nr == BytesPrefix(path[1])
+        r  == ImplBatchRemove(kv, bulk, nr[1], nr[2], lim, 0, 0)
+    IN r[2] = AbsRemove(kv, path[1]) /\ r[1] = SumMult(bulk, Under(kv, path[1]))
 =============================================================================
